@@ -161,6 +161,15 @@ pub fn scenario(shards: &[&str], layout: &str, default_shard: &str, default_role
             t += 1;
         }
     }
+    // after an idle gap longer than healthcheck_delay every checkout runs the health check first
+    s = s.step(Step::Advance(31_000));
+    for v in 0..n {
+        s = s.q(&format!("SET SHARD TO '{}'", v));
+        let role = roles[0];
+        s = s.q(&format!("SET SERVER ROLE TO '{}'", role));
+        s = s.q(&format!("SELECT 2 /*{} expect={} role={}*/", tag(0, t, 0), v, role));
+        t += 1;
+    }
     s = s.terminate();
     let first_host = servers_for(shards[0], layout)[0].0.clone();
     let admin = vec![
@@ -182,7 +191,7 @@ pub fn scenario(shards: &[&str], layout: &str, default_shard: &str, default_role
         alt_tomls: vec![],
         servers,
         actors: vec![s.actor(), env("admin", admin)],
-        opts: Opts { horizon_ms: 30_000, ..Opts::default() },
+        opts: Opts { horizon_ms: 120_000, max_events: 800, ..Opts::default() },
         meta: serde_json::json!({"unservable": reasons, "n": n, "default_shard": default_shard}),
     }
 }
@@ -298,7 +307,7 @@ pub fn build(tier: &str) -> SimCheck {
         oracle: Box::new(oracle),
         bound: 0,
         limits: Limits { max_wall_s: if thorough { 2400.0 } else { 55.0 }, ..Default::default() },
-        rule: "configuration grammar: 16 shard-id sets (contiguous up to 12 shards, not from 0, gaps, duplicates by value, non-numeric, unordered) x 7 server layouts (roles, two primaries, duplicate servers) x 8 default_shard values x 5 default_role values (quick: one dimension varied at a time around the base, full cross of shard sets x default_shard) + 8 other defects (missing credentials, auth_query, invalid regex, plugins / splitting without parser, min_pool_size, unqualified sharding key, two users); each file is loaded by the real config::parse + from_config in its own process; accepted files are then served: one transaction per (shard 0..n-1, role), one with no shard selected, SHOW DATABASES/POOLS/STATS/SERVERS/BANS/CONFIG, BAN/UNBAN".into(),
+        rule: "configuration grammar: 16 shard-id sets (contiguous up to 12 shards, not from 0, gaps, duplicates by value, non-numeric, unordered) x 7 server layouts (roles, two primaries, duplicate servers) x 8 default_shard values x 5 default_role values (quick: one dimension varied at a time around the base, full cross of shard sets x default_shard) + 8 other defects (missing credentials, auth_query, invalid regex, plugins / splitting without parser, min_pool_size, unqualified sharding key, two users); each file is loaded by the real config::parse + from_config in its own process; accepted files are then served: one transaction per (shard 0..n-1, role), one with no shard selected, one more per shard after an idle gap (health check on checkout), SHOW DATABASES/POOLS/STATS/SERVERS/BANS/CONFIG, BAN/UNBAN".into(),
         assumptions: vec!["reference predicate 'unservable' is the property's own list; rejecting a file is always safe".into()],
     }
 }
